@@ -102,6 +102,40 @@ def query(e, refs, p, molof, qnode, excl, box):
             "params": [list(pr) for _, _, pr in refs.calls]}
 
 
+def as_iterable(nodes, form):
+    """remove_positions documents node_keys as 'abc.iterable': every form of iterable must remove the same nodes"""
+    nodes = list(nodes)
+    form %= 7
+    if form == 0:
+        return list(nodes)
+    if form == 1:
+        return tuple(nodes)
+    if form == 2:
+        return (n for n in nodes)                 # generator: can be walked once only
+    if form == 3:
+        return reversed(nodes)
+    if form == 4:
+        return dict.fromkeys(nodes).keys()
+    if form == 5:
+        return iter(nodes)
+    return np.array(nodes)
+
+
+def dist_queries(e, p, molof, nn):
+    """pbc_min_dist(point, get_point(node)) for every node, as RandomWalk.checks_milestones asks it: squared lattice distance, -1 if unpositioned"""
+    point = np.array(p, float) * H
+    out = []
+    for n in range(nn):
+        ref = e.get_point(molof[n], n)            # a view into the engine's table, exactly what the walk hands over
+        if np.isinf(ref[0]):
+            out.append(-1)
+            continue
+        d = float(e.pbc_min_dist(point, ref))
+        q = (d / H) ** 2
+        out.append(int(round(q)) if abs(q - round(q)) < 1e-6 else q)
+    return out
+
+
 # ------------------------------------------------------------------ S -> I
 
 def _replay_chunk(arg):
@@ -119,7 +153,7 @@ def _replay_chunk(arg):
                 if op["op"] == "add":
                     e.add_positions(np.array(op["p"], float) * H, molof[op["n"]], op["n"], start=op["start"])
                 elif op["op"] == "remove":
-                    e.remove_positions(molof[op["nodes"][0]], list(op["nodes"]))
+                    e.remove_positions(molof[op["nodes"][0]], as_iterable(op["nodes"], ci + k))
                 else:
                     e.concatenate_trees()
                 got = project(e, nn)
@@ -151,8 +185,16 @@ def _replay_chunk(arg):
                                 qbad = ("pair parameters differ", q["p"], excl, r)
                     if qbad:
                         break
+                if not qbad and "d2" in q:
+                    dq = dist_queries(e, q["p"], molof, nn)
+                    if dq != list(q["d2"]):
+                        qbad = ("pbc_min_dist(point, get_point(node)) differs: squared lattice distances %s, specification %s" % (dq, list(q["d2"])), q["p"], [], {})
                 if qbad:
                     break
+            if not qbad:
+                again = project(e, nn)
+                if again != exp:
+                    qbad = ("a query changed the engine (QueryPure)", None, [], {"state after the queries": again, "state after the operation": exp})
             if qbad:
                 bad.append((ci, k, "query: " + qbad[0], {"point": qbad[1], "exclude": qbad[2], "observed": qbad[3]}))
                 break
@@ -222,18 +264,21 @@ def record_traces(ntr, length, sd, nn=6, L=4, corrupt=False):
                 if ev["op"] == "add":
                     e.add_positions(np.array(ev["p"], float) * H, molof[ev["n"]], ev["n"], start=ev["start"])
                 elif ev["op"] == "remove":
-                    e.remove_positions(molof[ev["nodes"][0]], ev["nodes"])
+                    e.remove_positions(molof[ev["nodes"][0]], as_iterable(ev["nodes"], t + k))
                 else:
                     e.concatenate_trees()
                 ev["post"] = project(e, nn)
                 q = query(e, refs, qp, molof, qn, excl, box)
                 pt = e.get_point(molof[pn], pn)
                 ev["q"] = {"p": qp, "excl": excl, "close": q["close"], "refs": q["refs"], "force_ok": q["force_ok"],
-                           "point_of": {"n": pn, "p": [-1, -1, -1] if np.isinf(pt[0]) else lat(pt)}}
+                           "point_of": {"n": pn, "p": [-1, -1, -1] if np.isinf(pt[0]) else lat(pt)},
+                           "d2": dist_queries(e, qp, molof, nn)}
+                ev["post_q"] = project(e, nn)
             except Exception as exc:  # the engine must not raise; the event is logged so that the trace is rejected here
                 ev["exception"] = "%s: %s" % (type(exc).__name__, exc)
                 ev.setdefault("post", {"pos": [[-9, -9, -9]] * nn, "defined": [], "trees": []})
-                ev.setdefault("q", {"p": qp, "excl": excl, "close": False, "refs": [], "force_ok": False, "point_of": {"n": pn, "p": [-9, -9, -9]}})
+                ev.setdefault("q", {"p": qp, "excl": excl, "close": False, "refs": [], "force_ok": False, "point_of": {"n": pn, "p": [-9, -9, -9]}, "d2": [-9] * nn})
+                ev.setdefault("post_q", ev["post"])
                 tr.append(ev)
                 break
             tr.append(ev)
